@@ -103,11 +103,15 @@ var pgColKinds = []colKind{
 	{"serial", "serial", "", false}, {"serial-inspected", "serial", "default", false},
 	{"serial-custom-seq", "serial", "custom", false}, {"bigserial-custom-seq", "bigserial", "custom", false},
 	{"identity", "int", "", true},
+	{"enum", "enum", "", false},
 }
 
 func (k colKind) apply(c dcol, t dtab, custom string) dcol {
 	c.typ, c.ident, c.seq, c.def, c.null = k.typ, k.ident, "", "", false
 	c.enum, c.eschema = "", nil
+	if k.typ == "enum" {
+		c.enum, c.eschema = custom+"_e", t.schema // (registered by the caller)
+	}
 	switch k.seq {
 	case "default":
 		c.seq = t.name + "_" + c.name + "_seq"
@@ -245,6 +249,7 @@ func runInsp(w *out.W, tier string) {
 							ref := g.tab(sch, "t_")
 							t := g.inspTab(sch, ref)
 							custom := g.shaped(fmt.Sprintf("posts%d_id_seq", g.n), g.shapeOf["t_"], "seq")
+							g.names[custom+"_e"] = "type"
 							ci := 3
 							if variant%2 == 1 {
 								ci = 0 // the primary-key column
